@@ -100,10 +100,10 @@ def check_case(case):
                         elif n.instant is not None and abs(n.instant - ia) > tol:
                             fail = ("addback_instant: mode %s b + (a-b) = %s, "
                                     "a = %s (b=%s, a-b=%s)" % (
-                                        mode, back, M.fmt_kw(ka), M.fmt_kw(kb), d))
+                                        mode, M.sp(back), M.fmt_kw(ka), M.fmt_kw(kb), d))
                         elif int_class and not (back == a):
                             fail = "addback_eq: b + (a-b) = %s != a = %s" % (
-                                back, a)
+                                M.sp(back), M.sp(a))
                     else:
                         classes.append("addback_skipped_large")
                 days = abs(true) // 86400
